@@ -33,6 +33,10 @@ Clauses(e) ==
   /\ Check(tid, l, "P.errors.documented_only", e.obs.err, e.obs.err \in Errors /\ e.other.err \in Errors)
   /\ Check(tid, l, "P.lenient.no_parse_error", Lenient(e).err, Lenient(e).err \in {NoErr, "ValueError"})
   /\ Check(tid, l, "P.lenient.same_as_strict", "", Strict(e).err = NoErr => Lenient(e) = Strict(e))
+  \* faults that can be read off the line alone (unknown option, value for a flag, required value left out)
+  /\ Check(tid, l, "P.strict.rejects_unknown_option", Strict(e).err, UsesUnknownOption(e.f, e.line) => Strict(e).err \in ScanErrors)
+  /\ Check(tid, l, "P.strict.rejects_flag_value", Strict(e).err, GivesValueToFlag(e.f, e.line) => Strict(e).err \in ScanErrors)
+  /\ Check(tid, l, "P.strict.rejects_missing_value", Strict(e).err, OmitsRequiredValue(e.f, e.line) => Strict(e).err \in ScanErrors)
   \* the same format declared through command configurations, the mode chosen through Command.parse(raw, lenient):
   \* an explicit mode wins, without one the configuration decides
   /\ Check(tid, l, "P.route.command", IF e.cmd.built THEN "" ELSE e.cmd.dflt.err,
